@@ -82,3 +82,10 @@ func (s *Sim) versionsInFlightTogether(src, name string) bool {
 	}
 	return false
 }
+
+func imax(a, b int) int {
+	if a > b {
+		return a
+	}
+	return b
+}
